@@ -223,7 +223,8 @@ var alphabet = []byte(`0123456789-;"{}abcdefgilmnorstuzDEHINRT+.eCxé` + "\x00\x
 
 var numRe = regexp.MustCompile(`[0-9]+`)
 
-var hostileNumbers = []string{"-1", "0", "1", "2147483647", "2147483648", "4294967296", "9223372036854775807", "9223372036854775808", "18446744073709551615", "100000000000", "-9223372036854775808", "99999999999999999999"}
+var hostileNumbers = []string{"-1", "0", "1", "2147483647", "2147483648", "4294967296", "9223372036854775807", "9223372036854775808", "18446744073709551615", "100000000000", "-9223372036854775808", "99999999999999999999",
+	"100000000", "600000000", "9223372036854775800"}
 
 // mutations enumerates: every truncation, every single-byte deletion, substitutions and insertions from
 // the alphabet, and grammar-aware replacements of every number (counts, lengths, indices, values).
@@ -252,7 +253,7 @@ func mutations(s string, full bool, entryName string) []string {
 	}
 	hostile := hostileNumbers
 	if !full {
-		hostile = []string{"-1", "2147483648", "100000000000", "99999999999999999999", "9223372036854775807"}
+		hostile = []string{"-1", "2147483648", "100000000000", "99999999999999999999", "9223372036854775807", "100000000"}
 		if entryName == "reader" {
 			// the open finding count-trusted-in-reader-mode turns each of the huge counts into a 10 s hang or a
 			// worker death; the quick tier keeps two of them, the thorough tier all twelve
